@@ -34,6 +34,8 @@ func init() {
 	}, c30Enum, c30Run)
 }
 
+var c30OtherZone = time.FixedZone("UTC+13", 13*3600)
+
 func c30Special(loc *time.Location, year int) map[int]bool {
 	// days (0-based yearday) around Jan 1, DST switches, Feb 28-Mar 1, Dec 31
 	m := map[int]bool{0: true, 1: true}
@@ -146,6 +148,12 @@ func c30Run(c *mc.Ctx, s c30Spec) {
 				if i2 := io.TimeToIndex(t, tf); i2 != idx {
 					c.Violate(sig("same-interval-two-indices", st), fmt.Sprintf("%s: instants %v and %v of one interval map to indices %d and %d", s.Zone, st, t, idx, i2))
 				}
+			}
+		}
+		// the slot belongs to the instant, not to the Location the time.Time value happens to carry
+		for _, alt := range []time.Time{st.UTC(), st.In(c30OtherZone), next.Add(-1).UTC()} {
+			if i4 := io.TimeToIndex(alt, tf); i4 != idx {
+				c.Violate(sig("index-depends-on-location", st), fmt.Sprintf("%s: the interval starting %v has index %d, but the same interval given as %v gets index %d", s.Zone, st, idx, alt, i4))
 			}
 		}
 		back := io.IndexToTime(idx, tf, int16(s.Year))
